@@ -110,6 +110,13 @@ func runSeq(c *seqCase, tl *tally) bool {
 	if c.Mode.Started {
 		lg.Start()
 	}
+	stopped := false
+	defer func() { // a panic below must not leave the logger's flush goroutine alive inside the bubble
+		if !stopped {
+			defer func() { recover() }()
+			lg.Stop()
+		}
+	}()
 	var bm *ebpf.Map
 	if c.WithMap {
 		if bm = newSubscriberNATMap(); bm != nil {
@@ -340,6 +347,7 @@ func runSeq(c *seqCase, tl *tally) bool {
 	// shutdown flushes whatever is buffered
 	synctest.Wait()
 	mgr.Stop()
+	stopped = true
 	synctest.Wait()
 	pull()
 	n, cls, desc := compareAttribution(g, c.NPub, heldList, lm, nil, rnd)
@@ -375,6 +383,7 @@ func runSeq(c *seqCase, tl *tally) bool {
 		tl.add("instants_judged_by_time", 1)
 		if cls != "" {
 			sk.report(compLog, "attribution-by-time", cls, fmt.Sprintf("at the instant of op %d (%s): %s", sn.Op, sn.T.UTC().Format(time.RFC3339Nano), desc))
+			p = len(sorted) // judged up to the first mismatch only
 			break
 		}
 	}
@@ -424,7 +433,7 @@ func runBatches(t *testing.T, cases <-chan []*seqCase, sample func(c *seqCase, n
 			for batch := range cases {
 				synctest.Test(t, func(t *testing.T) {
 					for _, c := range batch {
-						nt := runSeq(c, tl)
+						nt := safeRunSeq(c, tl)
 						if sample != nil {
 							sample(c, nt)
 						}
@@ -466,7 +475,7 @@ func TestA_Scenarios(t *testing.T) {
 	tl := newTally()
 	synctest.Test(t, func(t *testing.T) {
 		for _, c := range cases {
-			runSeq(c, tl)
+			safeRunSeq(c, tl)
 		}
 	})
 	tl.merge()
@@ -661,4 +670,19 @@ func TestRandomWalks(t *testing.T) {
 			})
 		}
 	})
+}
+
+// safeRunSeq turns a panic inside the code under test into a violation instead of a dead check.
+func safeRunSeq(c *seqCase, tl *tally) (nt bool) {
+	defer func() {
+		if r := recover(); r != nil {
+			cls := digits.ReplaceAllString(fmt.Sprint(r), "N")
+			if len(cls) > 100 {
+				cls = cls[:100]
+			}
+			sk := &sink{g: c.G, nPub: c.NPub, mode: c.Mode.String(), family: c.Family, hist: func() []string { return []string{c.opsKey()} }}
+			sk.report("nat (sequential history)", "no-panic", cls, fmt.Sprintf("history %q panicked: %v", c.opsKey(), r))
+		}
+	}()
+	return runSeq(c, tl)
 }
